@@ -201,3 +201,40 @@ func VerifC30_Reuse() {
 	}
 	verifrt.Cover("end")
 }
+
+// VerifC30_Rings: rings of 4..6 switches, optionally with one chord, with
+// 1..2 devices on arbitrary switches (so some switches are pure transit
+// switches): routes are shortest and loop-free. Complements VerifC30_Routes,
+// which enumerates every graph on few switches.
+func VerifC30_Rings() {
+	n := 4 + verifrt.Choice("ring-size", 3)
+	g := c30Graph{s: n}
+	g.adj = make([][]bool, n)
+	for i := range g.adj {
+		g.adj[i] = make([]bool, n)
+	}
+	for i := 0; i < n; i++ {
+		j := (i + 1) % n
+		g.adj[i][j], g.adj[j][i] = true, true
+	}
+	if verifrt.Choice("chord", 2) == 1 {
+		a := verifrt.Choice("chord-from", n)
+		b := (a + 2 + verifrt.Choice("chord-span", n-3)) % n
+		g.adj[a][b], g.adj[b][a] = true, true
+	}
+	d := 1 + verifrt.Choice("devices", 2)
+	for i := 0; i < d; i++ {
+		g.devAt = append(g.devAt, verifrt.Choice("device-at", n))
+	}
+	conn := MakeConnector().WithEngine(timing.NewSerialEngine())
+	c := &conn
+	ports := g.build(c, "Ring", "")
+	for k, p := range ports {
+		for from := 0; from < g.s; from++ {
+			hops := c30Follow(c, from, p.AsRemote(), c.devices[k])
+			verifrt.Assert(hops > 0, "ring-route-reaches-the-device-without-looping")
+			verifrt.Assert(hops == g.dist(from, g.devAt[k])+1, "ring-route-is-a-shortest-path")
+		}
+	}
+	verifrt.Cover("end")
+}
